@@ -28,10 +28,11 @@ structure Cfg where
   initChanOnAccept   : Bool   -- C14-b repaired: endpoints replaced only on the accepting arms
   illTypedKeepsAlive : Bool   -- C14-c repaired: a failing `check` stops the actor only in `Init`
   runFailStops       : Bool   -- C17-a repaired: a failed run RPC stops the leader even without destination
+  constsFailStops    : Bool   -- C17-b repaired: a failed consts RPC makes the consts task send `Stop` instead of `InternalConstsSent` (Net model)
 deriving Repr
-def Cfg.pinned : Cfg := ⟨false, false, false, false⟩
-def Cfg.repaired : Cfg := ⟨true, true, true, true⟩
-/-- the configuration that models `/repo` as it is now (all four repairs are `fix:` commits). The correspondence harness and
+def Cfg.pinned : Cfg := ⟨false, false, false, false, false⟩
+def Cfg.repaired : Cfg := ⟨true, true, true, true, true⟩
+/-- the configuration that models `/repo` as it is now (all five repairs are `fix:` commits). The correspondence harness and
     the C13/C16 theorems use this one; `Cfg.pinned` is kept for the counterexample theorems that show each guard is needed. -/
 def Cfg.current : Cfg := Cfg.repaired
 
